@@ -931,7 +931,7 @@ func genBatches(t *rapid.T, start ref.Tx, q ref.FeeQuote) (batches [][]U, acts [
 
 func TestFund(t *testing.T) {
 	pbt.Run(t, pbt.Sub[Case]{
-		Name: "fund", Quick: 200000, Thorough: 12000000,
+		Name: "fund", Quick: 200000, Thorough: 6000000,
 		Gen:   genCase,
 		Check: check,
 		EnumDesc: "fundings with very many supplier calls: a run of 250 / 999 / 1000 / 1001 / 1500 / 3000 calls answered with an empty batch, followed by a covering batch or by the supplier's terminator, and a run of 251 / 1000 / 1001 / 1002 calls each answered with one small UTXO all of which are needed, followed by a covering UTXO; at 1 sat/byte and at 5 sat/100 bytes (20 cases)",
